@@ -57,12 +57,21 @@ EntryDisplay(e) ==
     ELSE e.name_cp
 
 \* the suffix after the last "::" that lies entirely before the first "<"
+(* The label of a type: its std::any::type_name with the module path of a   *)
+(* LEADING path removed ("alloc::string::String" -> "String",               *)
+(* "alloc::vec::Vec<c::T0>" -> "Vec<c::T0>").  Only whole module components  *)
+(* (plain identifiers followed by "::") are removed, so a type expression    *)
+(* that does not begin with a path keeps everything: "&alloc::string::String"*)
+(* , "(alloc::string::String, i32)", "[T; 2]", "fn(A) -> B", "dyn m::Tr".    *)
+IsIdentCp(c) == (c >= 48 /\ c <= 57) \/ (c >= 65 /\ c <= 90) \/ (c >= 97 /\ c <= 122) \/ c = 95 \/ c > 127
+RECURSIVE TypeDisplay(_)
 TypeDisplay(raw) ==
-  LET lts == {i \in 1..Len(raw) : raw[i] = 60}
-      lt == IF lts = {} THEN Len(raw) + 1 ELSE CHOOSE i \in lts : \A j \in lts : i <= j
-      seps == {i \in 1..(lt - 2) : raw[i] = 58 /\ raw[i + 1] = 58}
-      last == CHOOSE i \in seps : \A j \in seps : j <= i
-  IN IF seps = {} THEN raw ELSE SubSeq(raw, last + 2, Len(raw))
+  LET seps == {i \in 1..(Len(raw) - 1) : raw[i] = 58 /\ raw[i + 1] = 58} IN
+  IF seps = {} THEN raw
+  ELSE LET i == CHOOSE x \in seps : \A y \in seps : x <= y IN
+       IF i > 1 /\ \A j \in 1..(i - 1) : IsIdentCp(raw[j])
+         THEN TypeDisplay(SubSeq(raw, i + 2, Len(raw)))
+         ELSE raw
 
 RECURSIVE NatText(_)
 NatText(n) == IF n < 10 THEN <<48 + n>> ELSE NatText(n \div 10) \o <<48 + (n % 10)>>
